@@ -435,7 +435,7 @@ class Prov:
             if c["name"] in ("reserve", "reserve_exact", "shrink_to_fit"):
                 continue
             others = tuple(self.operand(fn, a, (mb, "t")) for j, a in enumerate(mt["args"]) if j != mai)
-            updates.append((("&mut",) + mpath, ("mutby", c["key"], others, (fn.key, mb))))
+            updates.append((("&mut",) + mpath, ("mutby", c["key"], others, (fn.key, mb), c.get("resolved") or "")))
         whole = [w for w in whole if w != ("cycle",)] or whole
         if not whole:
             base = ("unknown", "undef _%d" % l)
@@ -1087,7 +1087,38 @@ def alts(o):
     return [o]
 
 
+# methods of std collections / strings that change what a value holds when it is lent to them mutably
+CONTENT_MUTATORS = {"retain", "retain_mut", "sort", "sort_by", "sort_by_key", "sort_unstable", "sort_unstable_by", "sort_unstable_by_key", "sort_by_cached_key",
+                    "dedup", "dedup_by", "dedup_by_key", "reverse", "truncate", "clear", "drain", "remove", "swap_remove", "pop", "pop_front", "pop_back",
+                    "split_off", "rotate_left", "rotate_right", "swap", "fill", "fill_with", "resize", "resize_with", "make_ascii_lowercase",
+                    "make_ascii_uppercase", "push", "push_str", "push_front", "push_back", "insert", "insert_str", "extend", "extend_from_slice", "append",
+                    "extend_from_within", "take", "replace", "splice", "remove_entry", "retain_keys"}
+_STD_OWNERS = ("std::vec::Vec::", "[T]::", "std::string::String::", "str::", "std::collections::", "std::option::Option::", "std::mem::")
+
+
+def content_mutated(o):
+    """the value was lent out mutably to a std method that changes its contents (`v.retain(..)`, `v.sort()`, `v.truncate(1)`,
+    `s.push_str(..)`) somewhere on the way: it is not "the parameter" / "the field" any more, whatever it is rooted in"""
+    x = o
+    while x[0] in ("vp", "upd"):
+        if x[0] == "upd":
+            for p0, v0 in x[2]:
+                if p0 == ("&mut",) and v0[0] == "mutby" and v0[1].startswith(_STD_OWNERS) and v0[1].rsplit("::", 1)[-1] in CONTENT_MUTATORS:
+                    return True
+                # a mutable slice / str of a Vec / String was handed out (`v.sort_by(..)`, `v.reverse()`, `s.make_ascii_lowercase()` reach
+                # the slice methods through DerefMut): whatever is done with it is done to the contents
+                if p0 == ("&mut",) and v0[0] == "mutby" and v0[1] in ("std::ops::DerefMut::deref_mut", "std::vec::Vec::as_mut_slice", "std::string::String::as_mut_str") and \
+                        (len(v0) < 5 or not v0[4] or v0[4].startswith(("<std::vec::Vec", "<std::string::String", "<std::collections::")) or not v0[1].endswith("deref_mut")):
+                    return True
+            x = x[1]
+        else:
+            x = x[2]
+    return False
+
+
 def is_param(o, name=None, idx=None):
+    if content_mutated(o):
+        return False
     o = peel(o)
     if o[0] == "upd":
         o = peel(o[1])
@@ -1173,6 +1204,8 @@ def root_param(o):
 
 def is_param_field(o, pname, fname):
     """o is `<pname>…​.fname` (possibly through enum variant downcasts)"""
+    if content_mutated(o):
+        return False
     o = peel(o)
     if o[0] != "field" or o[2] != fname:
         return False
@@ -1206,10 +1239,28 @@ CONVERSIONS = {"from", "into", "to_string", "to_owned", "clone", "as_str", "as_r
                "as_slice", "into_vec", "into_bytes", "to_bytes", "as_mut"}
 
 
+# `&mut self` methods that leave the contents as they are
+MUT_NEUTRAL = {"reserve", "reserve_exact", "shrink_to_fit", "shrink_to", "as_mut", "as_mut_slice", "as_mut_str", "iter_mut", "borrow_mut", "deref_mut",
+               "make_contiguous", "by_ref", "as_mut_ptr"}
+
+
 def just(o, pred, depth=0):
     """`o` IS the value `pred` recognises - looked at through references, clones and type conversions (`String::from`, `.into()`,
     `Addr::unchecked`, `.to_string()`, `.to_vec()`, ..) - not something computed from it: `x.to_lowercase()`, `&x[..n]`, `x / 2`,
     `f(x)` merely *mention* x.  (The counterpart of `contains` for obligations of the form "the value stored / sent is X".)"""
+    # a value that was lent out mutably to something that changes contents (`v.retain(..)`, `v.sort()`, `v.dedup()`, `s.push_str(..)`)
+    # is not that value any more
+    if content_mutated(o):
+        return False
+    x = o
+    while x[0] in ("vp", "upd"):
+        if x[0] == "upd":
+            for p0, v0 in x[2]:
+                if p0 and p0[0] == "&mut" and v0[0] == "mutby" and v0[1].rsplit("::", 1)[-1] not in MUT_NEUTRAL:
+                    return False
+            x = x[1]
+        else:
+            x = x[2]
     o = peel(o)
     if pred(o):
         return True
